@@ -287,6 +287,12 @@ def build_value(v, once=False):
     """Object-view value term -> Python value through the helper classes. once=True passes one-shot iterators wherever the
     constructor's signature says Iterable (Left / Right / Sum): the value must be the same."""
     it = (lambda xs: iter(list(xs))) if once == True else (lambda xs: xs)  # noqa: E712
+    if once == "aliased":
+        # the caller keeps the list it passed and appends to it afterwards: the value was fixed at construction
+        def it(xs):  # noqa: F811
+            lst = list(xs)
+            _ALIASED.append(lst)
+            return lst
     if once == "shared":
         # equal sub-terms are ONE Python object (`[x] * n`, a reused tuple): position still counts
         key = json.dumps(v, sort_keys=True)
@@ -299,6 +305,15 @@ def build_value(v, once=False):
 
 
 _SHARED: dict = {}
+_ALIASED: list = []
+
+
+def poison_aliased():
+    """append a stray element to every list handed to a constructor in 'aliased' mode"""
+    from hugr import tys, val
+    for lst in _ALIASED:
+        lst.append(val.TRUE if (lst and hasattr(lst[0], "type_")) or not lst else tys.Bool)
+    _ALIASED.clear()
 
 
 def _build_value_inner(v, once, it):
@@ -336,7 +351,9 @@ def _build_value_inner(v, once, it):
     if k == "Tuple":
         return val.Tuple(*[build_value(x, once) for x in v["vs"]])
     if k == "Sum":
-        return val.Sum(v["tag"], build_type(v["typ"]), it([build_value(x, once) for x in v["vs"]]))
+        vs = [build_value(x, once) for x in v["vs"]]
+        # (the general Sum dataclass keeps the list it is given - ordinary dataclass behaviour; only the helper constructors copy)
+        return val.Sum(v["tag"], build_type(v["typ"]), vs if once == "aliased" else it(vs))
     if k == "Function":
         row = build_row(v["sig"]["input"])
         d = Dfg(*row)
